@@ -9,7 +9,7 @@
      crash_sites       : the same as an explicit per-operation list of sites;
      crash_sites_observed : without the totality hypothesis the only further site is the crypto engine's own exception;
      no_crash_clean_ops: twelve operations have no internal-error site at all (full-strength for them);
-     no_crash_but_get_attributes / no_crash_get_attributes_1x : on the tree as it is now (most findings repaired by fix:
+     no_crash_current_tree / no_crash_get_attributes_1x : on the tree as it is now (most findings repaired by fix:
                          commits) everything except the KMIP 2.0 GetAttributes empty response is crash-free;
    and each recorded signature has its `..._refuted` witness below (evaluated by vm_compute; a witness is stated through
    the generated `defect` / `policy_unknown` tables so that it stays true on a repaired tree, where it degenerates to Done). *)
@@ -55,15 +55,16 @@ Theorem clean_ops_are : forall it,
 Proof. exact PK.NoCrash.Proofs.clean_ops_are. Qed.
 Print Assumptions clean_ops_are.
 
-(* The tree as it is now (after the fix: commits 3212380 7aa8a6e 074870c 3da5f5b 229c9a2 7ce08f2 546e738 d24c06a 1a2a215 2d8db5c):
-   every operation except GetAttributes is free of internal-error sites; GetAttributes only fails to be answered under
-   KMIP 2.0 (empty result; known finding C13-get-attributes-empty-response-20).  These two are proved by computing the
-   generated tables, so re-introducing a repaired defect breaks them. *)
-Theorem no_crash_but_get_attributes : forall v s cr it,
-  supported_version v = true -> wf_store s -> wf_item it -> crypto_total cr -> op_of it <> "GET_ATTRIBUTES" ->
+(* The tree as it is now (after the fix: commits): every operation outside `dirty_now` is free of internal-error sites
+   (crypto engine total).  `dirty_now` = GetAttributes only (KMIP 2.0 empty response, C13-get-attributes-empty-response-20);
+   the Register sites (Key Block without algorithm / length / key value, Prime Field Size outside 64 bits) were repaired by
+   repo commits a0be571 and 7aebdbf.
+   Proved by computing the generated tables, so re-introducing a repaired defect breaks it. *)
+Theorem no_crash_current_tree : forall v s cr it,
+  supported_version v = true -> wf_store s -> wf_item it -> crypto_total cr -> ~ In (op_of it) dirty_now ->
   step_crash v s cr it = false.
-Proof. exact PK.NoCrash.Proofs.no_crash_but_get_attributes. Qed.
-Print Assumptions no_crash_but_get_attributes.
+Proof. exact PK.NoCrash.Proofs.no_crash_current_tree. Qed.
+Print Assumptions no_crash_current_tree.
 
 Theorem no_crash_get_attributes_1x : forall v s cr u names,
   wf_store s -> ver_ge v (2,0) = false -> step_crash v s cr (IGetAttributes u names) = false.
@@ -161,13 +162,13 @@ Example delete_current_name_refuted :
   when "delete-current-name" "services/server/engine.py:_delete_attribute_from_managed_object:AttributeError(value)".
 Proof. vm_compute. reflexivity. Qed.
 Example register_symmetric_format_refuted :
-  step (1,2) [] COk (IRegister 2 (Some (SecKey 2 2 true 0 3 128)) None) = when "register-convert" "pie/factory.py:_build_pie_key:TypeError".
+  step (1,2) [] COk (IRegister 2 (Some (SecKey 2 2 true 0 3 128 0 false)) None) = when "register-convert" "pie/factory.py:_build_pie_key:TypeError".
 Proof. vm_compute. reflexivity. Qed.
 Example register_validate_refuted :
-  step (1,2) [] COk (IRegister 3 (Some (SecKey 3 4 true 0 4 1024)) None) = when "register-convert" "pie/objects.py:validate:ValueError".
+  step (1,2) [] COk (IRegister 3 (Some (SecKey 3 4 true 0 4 1024 0 false)) None) = when "register-convert" "pie/objects.py:validate:ValueError".
 Proof. vm_compute. reflexivity. Qed.
 Example register_wrapping_data_refuted :
-  step (1,2) [] COk (IRegister 2 (Some (SecKey 2 1 true 3 3 128)) None) =
+  step (1,2) [] COk (IRegister 2 (Some (SecKey 2 1 true 3 3 128 0 false)) None) =
   when "register-convert" "pie/factory.py:_build_cryptographic_parameters:AttributeError(block_cipher_mode)".
 Proof. vm_compute. reflexivity. Qed.
 Example register_certificate_type_refuted :
@@ -176,6 +177,18 @@ Proof. vm_compute. reflexivity. Qed.
 Example get_attributes_empty_response_refuted :
   step (2,0) store0 COk (IGetAttributes (Some 1) ["Certificate Type"]) =
   when "get-attributes-empty-response" "core/messages/payloads/get_attributes.py:write:InvalidField".
+Proof. vm_compute. reflexivity. Qed.
+(* Register: optional Key Block parts left out; Prime Field Size SQLite cannot store *)
+Definition convert_outcome (sec : secret_s) : outcome :=
+  match convert sec with Some (Some site) => if String.eqb site KMIP_ERROR then Done else Crash site | _ => Done end.
+Example register_keyblock_no_algorithm_refuted :
+  step (1,2) [] COk (IRegister 2 (Some (SecKey 2 1 true 0 3 128 1 false)) None) = convert_outcome (SecKey 2 1 true 0 3 128 1 false).
+Proof. vm_compute. reflexivity. Qed.
+Example register_splitkey_no_key_value_refuted :
+  step (1,2) [] COk (IRegister 5 (Some (SecKey 5 1 true 0 3 128 4 false)) None) = convert_outcome (SecKey 5 1 true 0 3 128 4 false).
+Proof. vm_compute. reflexivity. Qed.
+Example register_prime_field_size_overflow_refuted :
+  step (1,2) [] COk (IRegister 5 (Some (SecKey 5 1 true 0 3 128 0 true)) None) = when "register-bigint-overflow" OVERFLOW_SITE.
 Proof. vm_compute. reflexivity. Qed.
 (* the crypto-engine findings: the handler reaches the call and lets its exception through *)
 Example crypto_exception_refuted : forall site,
